@@ -24,7 +24,10 @@ ASSUMPTIONS = ["PARTIAL: wall-clock time, OS scheduling and the Arc::into_raw/fr
                "Ipc::recv returns within its timeout; user flows do not keep a Datapath handle alive past their drop"]
 LEVEL_TEXT = ("PARTIAL. Machine-checked proof (Lean 4) of the stop logic of the receive/dispatch loop model: no recv after the flag is read "
               "false, independence of the rest of the transport, bounded dispatch after the stop, Ok iff stopped / Err on an undecodable "
-              "stream end, drops then nothing. The runtime aspects the model cannot exhibit - latency within one receive timeout, the "
+              "stream end, drops then nothing; and over a reference-count model of the stop flag and the socket (Conc/Own): the "
+              "into_raw/from_raw hand-off is balanced for every sequence of handle operations (stop_handle_balanced), the socket is dropped "
+              "and closed exactly once unless a handle copy outlives the runtime (close_called_once), such a copy cannot send "
+              "(dead_handle_cannot_send). The runtime aspects the model cannot exhibit - latency within one receive timeout, the "
               "in-flight recv, Ipc::close invoked once, no callback after return, wait() yielding the result, handle strong count - are "
               "exercised by a harness with a really blocking transport in 40+ stop points x 3 run/handle modes.")
 LEVEL_NOTE = "Trusts: Lean kernel for the loop logic; timing assertions carry 1 s slack; thread scheduling is sampled, not proved."
